@@ -94,3 +94,56 @@ def orderbook_tail_specs(seed, n, tag, split=True):
         sp['seed'] = '%s/%s/%d' % (seed, tag, i)
         out.append(sp)
     return out
+
+
+# ------------------------------------------------------------------ model builders vs. <Asset>.setup_optim_problem
+ASSET_IMPORTS = 'Num LP Cert Mapping Dcf Grid Assets StorageProofs Periodic Portfolio Corr Build'
+ASSET_NAMES = ['accepted/rejected alike', 'c', 'l', 'u', 'rows', 'mapping']
+
+
+def modelled(a):
+    """asset specs the Gallina builders cover"""
+    if a['kind'] in ('Plant', 'CHPAsset', 'LinkedAsset'):
+        return False
+    if a.get('block_size'):
+        return False
+    if a['kind'] == 'ScaledAsset':
+        return modelled(a['base'])
+    if a['kind'] == 'StructuredAsset':
+        return all(modelled(b) for b in a['assets'])
+    return True
+
+
+def asset_corr(ctx, specs, parts, tag, want=None):
+    """compare the model builder of every (modelled) asset of every spec with the implementation's stand-alone
+    problem (c, l, u, rows, mapping, acceptance).  parts = results of the 'assets' probe."""
+    import modelspec as M
+    exprs, owners = [], []
+    for sp, pa in zip(specs, parts):
+        if pa.get('status') != 'ok':
+            continue
+        G = M.grid_term(sp['grid'])
+        for a, r in zip(sp['assets'], pa['assets']):
+            if not modelled(a) or (want is not None and not want(a)):
+                continue
+            ok = r['status'] == 'ok'
+            P = C.lp(r['problem']) if ok else '(Build_lp [] [] [] [])'
+            mp = C.mapping(r['problem']['mapping']) if ok else '[]'
+            try:
+                term = M.asset_term(a, sp, 'G')
+            except Exception as e:
+                ctx.count('asset not expressible in the model: ' + repr(e)[:40])
+                continue
+            exprs.append('(let G := %s in asset_case %s %s %s %s)' % (G, term, C.b(ok), P, mp))
+            owners.append((sp, a))
+            ctx.count('corr:' + a['kind'] + ('' if ok else ':rejected'))
+    vals = C.run_coq_exprs(tag, ASSET_IMPORTS, exprs, chunk=8)
+    for (sp, a), v in zip(owners, vals):
+        ctx.cov['correspondence']['cases'] += 1
+        ctx.cov['correspondence']['components_compared'] += 5
+        for nm, ok in zip(ASSET_NAMES, v):
+            if not ok:
+                ctx.cov['correspondence']['disagreements'] += 1
+                ctx.broken('correspondence-broken', {'spec': sp, 'asset': a,
+                                                     'theorem_or_correspondence': '%s.setup_optim_problem vs model builder: %s' % (a['kind'], nm)})
+    return len(exprs)
